@@ -337,10 +337,18 @@ pub fn run(seed: u64, n: usize, out: &mut Out) {
                     continue;
                 };
                 let procs: Vec<&String> = ex.log.iter().filter(|l| l.starts_with("proc ")).collect();
-                // --- C14: the reply is exactly one frame
+                // --- C14: the reply is exactly one frame.  Only commands that can arrive over the
+                // wire count: a command value is what the decoder produced, so it must survive
+                // serialize -> parse unchanged (e.g. no CR LF inside a simple string).
+                let cmd_bytes = RespSerializer::serialize(&v);
+                let on_wire = matches!(dec(&cmd_bytes), Dec::Ok(ref v0, c0) if c0 == cmd_bytes.len() && v0 == &v);
+                if !on_wire {
+                    out.bump("commands_not_representable_on_the_wire");
+                }
                 let bytes = RespSerializer::serialize(reply);
                 match dec(&bytes) {
                     Dec::Ok(v2, c) if c == bytes.len() && &v2 == reply => {}
+                    _ if !on_wire => {}
                     other => {
                         let o = other.show();
                         out.violation(
